@@ -19,12 +19,13 @@ RULE = ("histories of 30-90 operations over one SD file and one H-level file: ob
         "light shadow state only steers weights; a malformed stream adds out-of-range indices, unknown names, sets in "
         "read mode and over-limit counts.  Non-trivial = at least one successful set and one listing returning it; "
         "distinct by op text")
-TRUSTED = ["Coq 8.16.1 kernel", "extraction (ExtrOcamlBasic only; Z/positive/nat inductive)",
+TRUSTED = ["Coq 8.16.1 kernel", "translator plugin gen/plugins/attr_literals.py (string literals / statement shapes of cdf.c)", "extraction (ExtrOcamlBasic only; Z/positive/nat inductive)",
            "OCaml drivers extract/attr_main.ml, extract/attrm_main.ml; C harness harness/drive_attr.c; generator and "
            "comparison in checks/C10.py",
            "translator gen_consts.py for the constants, strings and switch tables in gen/Gen_Attr.v",
-           "modelled, not verified: the metadata rewrite at SDend / reload at SDstart (cdf.c hdf_write_xdr_cdf, "
-           "hdf_read_*), GRend/GRstart and Vdata storage are covered by the correspondence across reopen only"]
+           "modelled at the level of the Vgroup / Vdata records (AttrPersistModel.v) and proved to round-trip: the SD "
+           "metadata rewrite at SDend / reload at SDstart; covered by the correspondence across reopen only: "
+           "GRend/GRstart, the storage of Vgroups and Vdatas themselves (C07, C08)"]
 ASSUMPTIONS = ["domain: names of Vdata/Vgroup attributes <= VSNAMELENMAX, of GR attributes <= FIELDNAMELENMAX and "
                "without ','; dataset/dimension names 1..60 bytes not starting with 'fakeDim' or a blank; no set "
                "operation on an SD / GR interface opened read-only (C14); SDgetrange / SDgetfillvalue on an attribute "
@@ -398,6 +399,22 @@ def strip(l):
     return l.split(" ", 1)[1] if " " in l else l
 
 
+def run_whole_model(ctx, hists, tag):
+    """the whole-file implementation model (AttrPersistModel.mstep: lookup by name, persistence through the Vgroup /
+    Vdata records) on the same histories"""
+    spec = ctx.model("attr_spec", ["attr_main.ml"], ["attr_spec"])
+    wd = os.path.join(ctx.bdir, "harness", "c10-%s-%d" % (tag, os.getpid()))
+    os.makedirs(wd, exist_ok=True)
+    p = os.path.join(wd, "in.hist")
+    flat = [l for h in hists for l in h]
+    open(p, "w").write("\n".join(flat) + "\n")
+    rcs, M = vc.run_lines(spec, p, timeout=900, args=["-m"])
+    shutil.rmtree(wd, ignore_errors=True)
+    if rcs != 0 or len(M) != len(flat):
+        raise vc.BuildError("whole-file model driver failed rc=%d (%d lines for %d)" % (rcs, len(M), len(flat)))
+    return [strip(l) for l in M]
+
+
 def run_histories(ctx, hists, tag, model=False):
     exe = ctx.harness("drive_attr", ["drive_attr.c"])
     if model:
@@ -587,12 +604,24 @@ def run(ctx):
     hists = corpus + [gen_history(r, "g%d" % i) for i in range(nh)] + \
         [gen_history(r, "m%d" % i, malformed=True) for i in range(nh // 4)]
     rc, R, S, flat = run_histories(ctx, hists, "main")
+    W = run_whole_model(ctx, hists, "whole")
+    whole = {"histories": 0, "lines_compared": 0, "histories_R_eq_M": 0, "histories_M_ne_S": 0, "of_those_R_follows_M": 0}
     opmix, fails_r, pos, nviol, known_hists = {}, 0, 0, 0, 0
     nts_seen, count_hist, namelen_hist, unspec_stops = set(), {}, {}, 0
     for h in hists:
         lo, hi = pos, pos + len(h)
         pos = hi
         i, kind = first_bad(R, S, flat, lo, hi)
+        # R vs the whole-file model M (never an alarm by itself: M = S is a theorem under the findings' hypotheses;
+        # where M leaves S -- a recorded finding -- the library is expected to follow M)
+        iw, _ = first_bad(R, W, flat, lo, hi)
+        ms = next((q for q in range(lo, hi) if S[q] == "unspec" or (W[q] != S[q] and not match(W[q], S[q]))), None)
+        whole["histories"] += 1
+        whole["lines_compared"] += (iw if iw is not None else hi) - lo
+        whole["histories_R_eq_M"] += 1 if iw is None else 0
+        if ms is not None and S[ms] != "unspec":
+            whole["histories_M_ne_S"] += 1
+            whole["of_those_R_follows_M"] += 1 if (R[ms] is not None and match(R[ms], W[ms])) else 0
         for k, l in enumerate(h[1:]):
             t = l.split()
             opmix[t[0]] = opmix.get(t[0], 0) + 1
@@ -625,6 +654,7 @@ def run(ctx):
                 else:
                     known_hists += 1
     run_model_corr(ctx)
+    ctx.corr("SD whole file~AttrPersistModel.mstep", **whole)
     ctx.corr("SD/GR/VS/V~AttrSpec", histories=len(hists), operations=len(flat), op_mix=opmix,
              library_fail_results=fails_r, corpus_histories=len(corpus), number_types=sorted(nts_seen),
              count_histogram=count_hist, name_length_histogram=namelen_hist,
@@ -678,10 +708,11 @@ def replay(ctx, path):
         for i, l in enumerate(flat):
             ok = M[i] in ("nomodel", "skip", "history") or Rm[i] == M[i]
             print("%s %-50s R: %-60s M: %s" % ("  " if ok else "!!", l[:50], (Rm[i] or "<crash>")[:60], M[i][:80]))
+    W = run_whole_model(ctx, [lines], "replayw")
     stop = False
     for i, l in enumerate(flat):
         ok = stop or match(R[i], S[i])
-        print("%s %-60s R: %-70s S: %s" % ("  " if ok else "!!", l[:60], (R[i] or "<crash>")[:70], S[i][:90]))
+        print("%s %-60s R: %-70s S: %-70s M: %s" % ("  " if ok else "!!", l[:60], (R[i] or "<crash>")[:70], S[i][:70], W[i][:70]))
         if S[i] == "unspec":
             stop = True
     print("harness rc =", rc)
